@@ -9,7 +9,7 @@ Theorem C39_unseal_seal :
          (aead_open : bytes -> bytes -> bytes -> bytes -> option bytes),
     (forall k n c a p, aead_open k n c a = Some p <-> c = aead_seal k n p a) ->
     forall key n now1 now2 now' u,
-      plain_path (u_path u) -> good_query (u_query u) -> length n = 12%nat ->
+      bytes_ok (u_path u) -> sealable_path (u_path u) -> good_query (u_query u) -> length n = 12%nat ->
       in_i64 (now1 - 10000) -> in_i64 (now2 + 900000) ->
       (now1 - 10000 <= now' <= now2 + 900000)%Z ->
       unseal aead_open key now' (seal_url aead_seal key n now1 now2 u) = UOk u.
@@ -52,7 +52,7 @@ Theorem C39_tamper_rejected :
       s_req s' = s_req s ->
       ( s_nonce s' <> s_nonce s \/ s_nbf s' <> s_nbf s \/ s_exp s' <> s_exp s
         \/ (now' < now1 - 10000)%Z \/ (now2 + 900000 < now')%Z
-        \/ (plain_path (u_path u) /\ good_query (u_query u) /\ s_path s' <> s_path s) ) ->
+        \/ (bytes_ok (u_path u) /\ sealable_path (u_path u) /\ good_query (u_query u) /\ s_path s' <> s_path s) ) ->
       ~ accepted (unseal aead_open key now' s').
 Proof. exact tamper_rejected. Qed.
 Print Assumptions C39_tamper_rejected.
@@ -91,21 +91,14 @@ Theorem C39_post_confined_refuted :
 Proof. exact post_confined_refuted. Qed.
 Print Assumptions C39_post_confined_refuted.
 
-(* paths that need percent-encoding: the round trip fails and a changed path is accepted *)
-Theorem C39_unseal_seal_escaped_refuted :
-  exists key n now u, length n = 12%nat /\ good_query (u_query u)
-    /\ unseal sym_open key now (seal_url sym_seal key n now now u) <> UOk u.
-Proof. exact unseal_seal_escaped_refuted. Qed.
-Print Assumptions C39_unseal_seal_escaped_refuted.
-
-Theorem C39_tamper_path_escaped_refuted :
-  exists key n now u s',
-    let s := seal_url sym_seal key n now now u in
-    s_req s' = s_req s /\ s_nonce s' = s_nonce s /\ s_nbf s' = s_nbf s /\ s_exp s' = s_exp s
-    /\ s_path s' <> s_path s
-    /\ exists u', unseal sym_open key now s' = UOk u' /\ u_path u' <> u_path u.
-Proof. exact tamper_path_escaped_refuted. Qed.
-Print Assumptions C39_tamper_path_escaped_refuted.
+(* the two residual path classes (relative path with ':' in its first segment, path beginning with exactly "//"):
+   Unseal rejects what Seal issued.  Paths that need percent-encoding round-trip since f75d72f (C39_unseal_seal). *)
+Theorem C39_unseal_seal_residual_refuted :
+  exists u1 u2, bytes_ok (u_path u1) /\ bytes_ok (u_path u2) /\ good_query (u_query u1) /\ good_query (u_query u2)
+    /\ unseal sym_open [1] 1000000%Z (seal_url sym_seal [1] zero_nonce 1000000%Z 1000000%Z u1) <> UOk u1
+    /\ unseal sym_open [1] 1000000%Z (seal_url sym_seal [1] zero_nonce 1000000%Z 1000000%Z u2) <> UOk u2.
+Proof. exact unseal_seal_residual_refuted. Qed.
+Print Assumptions C39_unseal_seal_residual_refuted.
 
 Theorem C39_parse_fmt_int : forall z, in_i64 z -> parse_int64 (fmt_int z) = Some z.
 Proof. exact parse_fmt_int. Qed.
